@@ -535,6 +535,9 @@ def make_handler_class():
 
         async def on_connection_error(self, rsocket, exception):
             self._rec('on_connection_error', err=type(exception).__name__)
+            cb = getattr(self, 'on_connection_error_hook', None)
+            if cb is not None:
+                await cb(rsocket)
 
         async def on_close(self, rsocket, exception=None):
             self._rec('on_close')
